@@ -492,6 +492,10 @@ def _entries(lt, ct):
                     tg = n.targets if isinstance(n, ast.Assign) else [n.target]
                     if any(ast.unparse(t) in ("self.allow_inspection", "self.force_inspection", "self.store_source") for t in tg):
                         raise TranslatorError(f"{q}: rebinds an inspection option of the loader")
+                if isinstance(n, ast.Call) and _callee(n) in ("setattr", "delattr", "__setattr__") and "inspection" in ast.unparse(n):
+                    raise TranslatorError(f"{q}: sets an inspection option of the loader through setattr")
+                if isinstance(n, ast.Delete) and any("inspection" in ast.unparse(t) for t in n.targets):
+                    raise TranslatorError(f"{q}: deletes an inspection option of the loader")
 
     def loader_and_load(fn, where, loader_name="loader"):
         """a function that builds one GriffeLoader and calls .load on it -> option -> value over fn's parameters"""
@@ -743,6 +747,15 @@ def translate(ctx=None) -> Path:
 
     # ---- importer.sys_path
     f = _fn(it, "sys_path")
+    # the binding found on entry is saved in the frame of the context manager (so that nested uses form a stack):
+    # no global / nonlocal name, no attribute or subscript as the place where it is kept
+    if any(isinstance(n, (ast.Global, ast.Nonlocal)) for n in ast.walk(f)):
+        raise TranslatorError("sys_path: keeps state in a global / nonlocal name (nested uses would overwrite each other's saved sys.path)")
+    for n in ast.walk(f):
+        if isinstance(n, (ast.Assign, ast.AugAssign, ast.AnnAssign)):
+            for tg in (n.targets if isinstance(n, ast.Assign) else [n.target]):
+                if not isinstance(tg, ast.Name) and ast.unparse(tg) != "sys.path":
+                    raise TranslatorError(f"sys_path: assigns to {ast.unparse(tg)} (the saved sys.path must be a local variable)")
     body = [s for s in f.body if not (isinstance(s, ast.Expr) and isinstance(s.value, ast.Constant))]
     noop = False
     if body and isinstance(body[0], ast.If) and ast.unparse(body[0].test) == "not paths":
